@@ -487,3 +487,96 @@ let () =
          String.concat "," ("u" :: List.map show obs @ shape)
        | Panic -> "PANIC" | Hang -> "HANG" | Fuel -> "FUEL")
     | _ -> "badargs")
+
+(* ---- WDECTAB: the lookup tables of internal/prefix (Prefix/DecTable.v) -------------------
+   codes = sym:len:val,sym:len:val,... | -
+   dectab <z|gSEED> <codes>                      : Decoder.Init over recycled storage, whole dump
+   decread <codes> <hex|-> <buffered> <big> <fills|-> <state 0/1> op...   op = s | t | b:<n>
+   enctab <codes> <sym,sym,..|->                 : Encoder.Init dump and lookups
+   encdec <codes> <big> <sym,sym,...>            : WriteSymbol* then ReadSymbol* *)
+let parse_codes (s : string) =
+  if s = "-" then [] else
+  List.map (fun c -> match colon c with
+    | [a; b; v] -> ((n_of_string a, n_of_string b), n_of_string v)
+    | _ -> failwith "code") (String.split_on_char ',' s)
+
+let fmt_dump (l : n list) : string =
+  let len = List.length l in
+  if len <= 3000 then String.concat "," (List.map (fun x -> string_of_int (int_of_n x)) l)
+  else begin
+    let h = ref 0 in
+    List.iter (fun x -> h := ((!h * 1000003) + int_of_n x + 1) land ((1 lsl 40) - 1)) l;
+    Printf.sprintf "H%d:%d" len !h
+  end
+
+let garbage (seed : int) : n -> n =
+  fun i -> n_of_int (((int_of_n i * 2654435761) + seed * 40503 + 12345) land 0xFFFFFFFF)
+
+let old_of_mode (m : string) : n -> n =
+  if m = "z" then (fun _ -> N0)
+  else garbage (int_of_string (String.sub m 1 (String.length m - 1)))
+
+let rs_name (r : rsres) : string = match r with
+  | RSym s -> n_to_string s | RUEOF -> "ueof" | RInvalid -> "invalid" | RPanic -> "panic" | RFuel -> "fuel"
+
+let fmt_dt_obs (state : bool) (o : dt_obs) : string =
+  let st bb nb off = if state then Printf.sprintf ":%s:%s:%s" (n_to_string bb) (n_to_string nb) (z_to_string off) else "" in
+  match o with
+  | DOSym (r, br, bb, nb, off) -> Printf.sprintf "s:%s:%s%s" (rs_name r) (z_to_string br) (st bb nb off)
+  | DOTry (r, br, bb, nb, off) ->
+    Printf.sprintf "t:%s:%s%s"
+      (match r with None -> "panic" | Some None -> "no" | Some (Some s) -> n_to_string s)
+      (z_to_string br) (st bb nb off)
+  | DOBits (v, br) ->
+    Printf.sprintf "b:%s:%s" (match v with None -> "panic" | Some x -> n_to_string x) (z_to_string br)
+
+let () =
+  register "dectab" (fun args -> match args with
+    | [mode; codes] ->
+      let old = old_of_mode mode in
+      let old2 = if mode = "z" then old else (fun i -> old (N.add i (n_of_int 7777))) in
+      (match dec_init old old2 (parse_codes codes) with
+       | IOk d -> "ok " ^ fmt_dump (dec_dump d)
+       | IPanic -> "panic"
+       | IOutOfModel -> "oom")
+    | _ -> "badargs");
+  register "decread" (fun args -> match args with
+    | codes :: hex :: buffered :: big :: fills :: state :: ops ->
+      let data = if hex = "-" then [] else bytes_of_hex hex in
+      let ints s = if s = "-" then [] else List.map (fun x -> nat_of_int (int_of_string x)) (String.split_on_char ',' s) in
+      (match dec_init (fun _ -> N0) (fun _ -> N0) (parse_codes codes) with
+       | IOk d ->
+         let p0 = init data (buffered = "1") (big = "1") (ints fills) [] in
+         let dops = List.map (fun o -> match colon o with
+           | ["s"] -> DSym | ["t"] -> DTry | ["b"; n] -> DBits (n_of_string n) | _ -> failwith "op") ops in
+         String.concat "," (List.map (fmt_dt_obs (state = "1")) (dt_run d p0 dops))
+       | IPanic -> "init-panic"
+       | IOutOfModel -> "init-oom")
+    | _ -> "badargs");
+  register "enctab" (fun args -> match args with
+    | [codes; syms] ->
+      (match enc_init (parse_codes codes) with
+       | IOk e ->
+         let ss = if syms = "-" then [] else List.map n_of_string (String.split_on_char ',' syms) in
+         let lk = List.map (fun s -> match enc_lookup e s with
+           | None -> "x" | Some (v, nb) -> n_to_string v ^ ":" ^ n_to_string nb) ss in
+         "ok " ^ fmt_dump (enc_dump e) ^ " | " ^ String.concat "," lk
+       | IPanic -> "panic"
+       | IOutOfModel -> "oom")
+    | _ -> "badargs");
+  register "encdec" (fun args -> match args with
+    | [codes; big; syms] ->
+      let cs = parse_codes codes in
+      let ss = List.map n_of_string (String.split_on_char ',' syms) in
+      (match enc_init cs, dec_init (fun _ -> N0) (fun _ -> N0) cs with
+       | IOk e, IOk d ->
+         (match enc_syms e ss with
+          | None -> "enc-panic"
+          | Some bits ->
+            let bytes = bits_to_bytes bits in
+            let bytes = if big = "1" then List.map rev8 bytes else bytes in
+            let p0 = init bytes false (big = "1") [] [] in
+            let obs = dt_run d p0 (List.map (fun _ -> DSym) ss) in
+            hex_of_bytes bytes ^ " " ^ String.concat "," (List.map (fmt_dt_obs false) obs))
+       | _, _ -> "init-failed")
+    | _ -> "badargs")
